@@ -8,7 +8,12 @@ from . import step
 from .c11 import valid
 from .common import method_unit
 
-ASSUMPTIONS = step.ASSUMPTIONS
+ASSUMPTIONS = step.ASSUMPTIONS + [
+    'Coproc_Accepted() CP14/CP15 units: the register-space decode hooks (cp14_debug/trace/jazelle_instr_decode, cp15_instr_decode) and '
+    'instr_is_pl0_undefined() are mocks of the implementation (raise NotImplementedError); assumed contract: an arbitrary boolean, no state change',
+    'Coproc_Accepted() regions left open (DESIGN 14.17): User mode with TEECR.XED = 1 and instr<0> = 1 in the ThumbEE space; HCR.TIDCP with '
+    'CRn = 9, CRm = 1; HCR.TIDCP traps are checked in one direction only (a trap only where one is specified); ISS<0> of the ThumbEE trap syndrome',
+]
 
 
 def fn_units():
